@@ -475,18 +475,22 @@ impl WriteNode {
                         "Diff detected: update of existing RRSET - recording change of RRSET from {current_rrset:?} to {new_rrset:#?}"
                     );
 
+                    // A change of the TTL changes every record of the RRset.
+                    let old_ttl = current_rrset.as_ref().unwrap().ttl();
+                    let ttl_changed = old_ttl != new_rrset.ttl();
+
                     // Check each resource record in the RRset being updated
                     // to see if it is missing from the new RRSet.
                     let new_rrs = new_rrset.as_rrset().data();
                     let mut removed_rrs =
-                        Rrset::new(new_rrset.rtype(), new_rrset.ttl());
+                        Rrset::new(new_rrset.rtype(), old_ttl);
                     for removed_rr in current_rrset
                         .as_ref()
                         .unwrap()
                         .as_rrset()
                         .data()
                         .iter()
-                        .filter(|rr| !new_rrs.contains(rr))
+                        .filter(|rr| ttl_changed || !new_rrs.contains(rr))
                     {
                         removed_rrs.push_data(removed_rr.clone());
                     }
@@ -509,7 +513,7 @@ impl WriteNode {
                         .as_rrset()
                         .data()
                         .iter()
-                        .filter(|rr| !old_rrs.contains(rr))
+                        .filter(|rr| ttl_changed || !old_rrs.contains(rr))
                     {
                         added_rrs.push_data(added_rr.clone());
                     }
